@@ -191,7 +191,7 @@ def check_aws(ctx):
     else:
         vlib.tri_compare(ctx, sub, cases, impl, model, spec)
     ctx.record(sub, cases, set(zip(cases, impl)),
-               "four signing variants; ids/regions/buckets/services/ops over the unreserved alphabet (0..200 chars), S3 paths always beginning with '/' (the request line documented in aws_sign.h; 0..3 unreserved segments or a long unreserved+'/' tail; never empty), secrets printable ASCII, bodies absent/empty/random (block-boundary lengths), timestamps at epoch/leap-day/23:59:59/2038/year-9999 boundaries with time() returning t+k on its k-th call; about 13% of the instants outside 1970..9999: year >= 10000 (failure expected, theorem), negative down to year 1000 (compared with the spec), time()'s error value -1 and years before 1000 (implementation vs model only: unpadded %Y, failure below year -999); non-trivial = distinct (case, result)",
+               "four signing variants; ids/regions/buckets/services/ops over the unreserved alphabet (0..200 chars), S3 paths always beginning with '/' (the request line documented in aws_sign.h; 0..3 unreserved segments or a long unreserved+'/' tail; never empty), secrets printable ASCII, bodies absent/empty/random (block-boundary lengths), timestamps at epoch/leap-day/23:59:59/2038/year-9999 boundaries with time() returning t+k on its k-th call; about 13% of the instants outside 1970..9999: year >= 10000 (failure expected, theorem), negative down to year 1000 (compared with the spec), time()'s error value -1 and years before 1000 (implementation vs model only: unpadded %Y, failure below year -999); two requests in progress at once: in three quarters of the cases (k = 1..6 chosen by the case text) the driver signs ANOTHER request (other credentials, region, variant, instant) completely inside the k-th allocation of the outer call and compares it with the same call made alone beforehand (`!other-request-disturbed`), the outer call then continues and must still give the model's / spec's result; non-trivial = distinct (case, result)",
                samples=[cases[0][:200], cases[1][:200]])
     ctx.assumptions.append("gmtime_r/strftime/asprintf modelled for the conversions used (%Y %m %d %H %M %S, %s %d %%) as glibc implements them (%Y unpadded, strftime returns 0 when the text does not fit); theorems cover time() values 0..253402300799 (success) and 253402300800..gmtime_r's limit (failure); S3 paths begin with '/'")
 
